@@ -64,6 +64,8 @@ pub enum Event<'a> {
         parent: u64,
         child: u64,
         ncaptures: u16,
+        /// size of the new task's heap (the copies of its captures)
+        child_heap_size: usize,
     },
     /// the instruction the thread just executed stopped it with a runtime error
     ThreadFailed {
